@@ -191,6 +191,15 @@ Theorem C16_earn_withdraw_own_shares :
 Proof. exact earn_withdraw_own. Qed.
 Print Assumptions C16_earn_withdraw_own_shares.
 
+(* besides the signer's shares an earn withdrawal moves only the vault's own
+   strategy deposit (held by the earn module account) *)
+Theorem C16_earn_withdraw_strategy_frame :
+  forall e s a d ws wa av dust rest s' out,
+  step e s (EarnWithdraw a d ws wa av dust rest) = Ok s' out ->
+  forall w, w <> earn_macc e -> forall x, hard_dep s' w x = hard_dep s w x /\ sav_dep s' w x = sav_dep s w x.
+Proof. exact earn_withdraw_strategy_frame. Qed.
+Print Assumptions C16_earn_withdraw_strategy_frame.
+
 (* the invariant used by the all-histories statements is kept by every operation *)
 Theorem C16_invariant_all_histories :
   forall e ops s, Inv e s -> Inv e (run e s ops).
@@ -205,8 +214,7 @@ Print Assumptions C16_table_covered.
 
 (** Non-vacuity: a state in which each principal's message is accepted and the
     same message from another signer is refused. *)
-Definition ex_env : env := mk_env 8 6 1000 [false;false;false;false;false;false;true;true]
-                                       [true;true;true;true;true;true;true;true] 6 2 1 7 [0%nat; 1%nat].
+Definition ex_env : env := mk_env 8 6 1000 [false;false;false;false;false;false;true;true] 6 2 1 7 [0%nat; 1%nat].
 Definition ex_state : state :=
   mk_state [(0%nat, [0%nat; 1%nat])] []
            [mkAsset 0 2 false true [] false 0] [0] [(2%nat, 0%nat, 50)]
@@ -214,10 +222,21 @@ Definition ex_state : state :=
            [mkCom 1 [4%nat; 5%nat] true] [(1%nat, (1%nat, 2000))] 2 []
            (0, 1, 1)
            [(1%nat, mkCdp 4 0 1000 100)] 2 [(1%nat, 4%nat, 600); (1%nat, 5%nat, 400)]
-           [(5%nat, 0%nat, 70); (7%nat, 0%nat, 500)] [(5%nat, 1%nat, 30)] [(100, 400, 20)] [(5%nat, 0%nat, 5)] [(5%nat, 0%nat, 9000)].
+           [(5%nat, 0%nat, 70); (7%nat, 0%nat, 500)] [(5%nat, 1%nat, 30)] [(100, 400, 20)] [(5%nat, 0%nat, 5)] [(5%nat, 0%nat, 9000)]
+           [true;true;true;true;true;true;true;true].
 
 Example C16_nonvacuous_inv : inv_b ex_env ex_state = true.
 Proof. vm_compute. reflexivity. Qed.
+
+(* the hypothesis [Inv] of the all-histories theorems holds of this state *)
+Example C16_nonvacuous_Inv : Inv ex_env ex_state.
+Proof.
+  constructor.
+  - intros w Hw. destruct Hw.
+  - intros pid a vt H. cbn in H. discriminate.
+  - intros pid p H. destruct pid as [|[|pid]]; cbn in H; try discriminate. cbn. lia.
+  - intros pid a H. reflexivity.
+Qed.
 
 Example C16_nonvacuous_principal_accepted :
   map (fun o => class_of (step ex_env ex_state o))
